@@ -17,13 +17,19 @@ PROPS = {
              "group (NewAbacoGroup with generated AbacoUnwrapOptions: RescaleRaw/Unwrap/Bias/ResetAfter/PulseSign/InvertChan, groups "
              "starting at channel 0,1,2,4,8,12,100, InvertChan listing numbers inside / outside the group / small indices) and run the real "
              "demuxData on real 16- and 32-bit packets over 1..4 calls; every channel must receive what its own configured unwrapper "
-             "(inverted iff its channel NUMBER is listed) yields.",
+             "(inverted iff its channel NUMBER is listed) yields. `roach` / `rdev` cases (3 quick, 12 per job thorough) run a REAL RoachDevice "
+             "(NewRoachDevice, samplePacket, readPackets with its 100 ms bundling) on a loopback UDP port fed with ROACH datagrams (2- and 4-byte words, "
+             "1..3 channels, 1..500 frames per packet) in 2..4 bursts, one case staying away from home longer than the 20000-sample reset interval across "
+             "blocks: per channel the raw stream cut at the block boundaries the device chose vs. its unwrapped blocks (`roach`), and the datagrams of "
+             "each bundle vs. the blocks made from them - first frame index and every channel's samples (`rdev`, Model/C12Roach.lean).",
         nontrivial=["wrapped", "group"],
+        lean_files=["C12", "C12Roach"],
         jobs=seeds(1, 8),
         trusted_base=["Go uint16/int16 conversion semantics as transcribed in Model/C12.lean (toInt16, mod 65536)"],
         assumptions=["the PhaseUnwrapper is only driven through NewPhaseUnwrapper/UnwrapInPlace (Abaco: NewAbacoGroup/demuxData, exercised; "
-                     "ROACH: samplePacket wiring needs a UDP device and is not exercised)",
-                     "theorems assume |bias| <= half a quantum (true for every caller after the ROACH fix)"],
+                     "ROACH: samplePacket/readPackets, exercised on a loopback UDP port)",
+                     "theorems assume |bias| <= half a quantum: proved for every caller (group_params_valid, roach_params_valid - the latter only since the ROACH bias fix 9cf407d)",
+                     "ROACH cases: loopback UDP keeps datagram order and loses nothing at these rates; inconsistent ROACH headers (channel count changing, uint16 overflow of Nchan*Nsamp) are not generated"],
     ),
     "C14": dict(
         rule="generated records (channel 0..65535 incl. boundaries, lengths 0..600 (thorough: up to 70000), signed/unsigned, extreme "
